@@ -460,6 +460,8 @@ class Runtime:
     # ------------------------------------------------------------------ attributes
     def getattr(self, interp, obj, name, node=None):
         from . import stdlib
+        if isinstance(obj, Builtin) and name in getattr(obj, "attrs", {}):
+            return obj.attrs[name]
         if isinstance(obj, Obj):
             hook = None
             for c in obj.cls.mro():
